@@ -54,10 +54,14 @@ abbrev Path := List Dir
 namespace Node
 
 /-- A subject calling the `Subscriber` it holds: items pass while the slot is
-    full; a terminal is delivered only if `!p_is_closed()` and empties the slot. -/
-def hotDeliver (downFin : Bool) (alive : Bool) : Notif → Bool × List Notif
+    full; a terminal is handed to every entry — finished downstream or not — and
+    empties the slot (`if let Some(o) = slot.take() { o.error(e) }`).  Before `fix:
+    Subject::error/complete hand the terminal to every subscriber` an entry with
+    `p_is_closed()` (= `downFin || !alive`) was skipped and kept its slot; `downFin`
+    is no longer consulted. -/
+def hotDeliver (_downFin : Bool) (alive : Bool) : Notif → Bool × List Notif
   | .next v => (alive, if alive then [.next v] else [])
-  | t => if alive && !downFin then (false, [t]) else (alive, [])
+  | t => (false, if alive then [t] else [])
 
 /-- Subject → subscriber at `path`: push `n` root-wards through every observer
     on the way.  Returns the new tree and what leaves its root.  `downFin` is the
